@@ -414,9 +414,15 @@ def queries(tier):
         qs.append(Query(name='reobj', body=body_hist, params=ps6, cubes=[c6], timeout=600,
                         witnesses=[(c6, {'l01': True, 'att': True, 'x0': 0, 'x1': 1, 'y1': 0, 'z1': 1})],
                         bound='remove_asset of every slot, add_asset of a new asset with every id pick, then the removed asset OBJECT itself is added again'))
+        ps7 = [B('att'), I('x0', 0, 4), I('y0', 0, 3), I('o1', 0, len(OPS) - 1), I('x1', 0, 4), I('y1', 0, 3), I('z1', 0, 1)]
+        c7 = {'k': 2, '_fixed': {'x2': True, 'l01': True, 'l12': False, 'l00': False, 'pk': False, 'ps': False, 'nm': False, 'att2': False, 'un': True, 'o0': 2, 'z0': 0}}
+        qs.append(Query(name='unrm', body=body_hist, params=ps7, cubes=[c7], split=['o1'], timeout=600,
+                        witnesses=[(c7, {'att': True, 'x0': 0, 'y0': 2, 'o1': 3, 'x1': 1, 'y1': 0, 'z1': 0})],
+                        bound='pre-state with an asset that was added without a name and one link; add_association with every member pick, then every operation '
+                              '(two associations of one type: membership tests must not rely on structural equality)'))
     return qs + [Query(name='hist', body=body_hist, params=ps, cubes=[{'k': k}], split=['o0', 'x0'] if k == 1 else ['o0', 'o1'],
                        pre=['not ps or (l00 and x2 and not pk and not l12)', 'not nm or (not l12 and not l00 and not pk)', 'not att2 or (not l12 and not l00 and not pk and not nm)', 'not un or (not nm and not att2 and not l00 and not pk and not l12)'] if k == 1 else
-                       ['x2 and att and not l12 and not pk', 'not ps or l00', 'not nm or not l00', 'not att2 or (not l00 and not nm)', 'not un or (not nm and not att2 and not l00)'],
+                       ['x2 and att and not l12 and not pk', 'not ps or l00', 'not nm or not l00', 'not att2 or (not l00 and not nm)', 'not un or (not nm and not att2 and not l00)', 'ps + nm + att2 + un <= 1'],
                   timeout=600 if tier == 'quick' else 1700, witnesses=wit,
                   bound='language L_MINI (type N, self-association PQ(p,q)); pre-state from 7 bits (third asset, links 0-1, 1-2, self-link 0-0 alone or with other members in both fields, one association '
                         'holding two assets in one field, attacker with an entry point), built through the API; then every sequence of %d operation(s) from %s '
